@@ -24,7 +24,9 @@ MANIFEST = {
              "sends nothing, schedules nothing and leaves the tracker state unchanged), dispatched_effect (a well-formed "
              "message has its effect; device keys stay unique), recv_sequence_total / recv_sequence_nodup (any sequence "
              "of datagrams to any endpoints), model_judged_ok (the run-time judge holds of the model's own outcome), "
-             "classify_clock_irrelevant, parser totality lemmas (IndexError and KeyError unreachable), and one decided "
+             "classify_clock_irrelevant, responder_only_msearch, sites_covered (every call of a primitive that may raise on "
+             "attacker-controlled text in the receive-path functions, enumerated from the source by ast, is a row of the table of "
+             "sites the model accounts for), parser totality lemmas (IndexError and KeyError unreachable), and one decided "
              "witness datagram per repair showing that the unrepaired variant raises.  Tables (gate prefixes, default "
              "max-age, cache-control regex, bad-location needles, MX cap, jitter bounds, caught exception classes) are "
              "regenerated from the source on every run.  The model is tied to the code by differential runs through the real "
